@@ -45,6 +45,9 @@ def run(tier: str, seed: int) -> int:
     cases = chk.generate("Gen_C04", shards=list(range(1, 14)))
     obs = drive("harness.props.c04", "drive_case", cases)
     verdicts = chk.judge("Judge_C04", obs)
+    from .. import corrupt as _corrupt
+
+    chk.binding_selftest("Judge_C04", obs, verdicts, _corrupt.c04)
     by_id = {o["id"]: _pretty(o) for o in obs}
     chk.absorb(verdicts, by_id, {c["id"]: c for c in cases})
     nontrivial = len({(tuple(c["payload"]), tuple(c["chain"])) for c in cases if len(c["payload"]) >= 2 or c["payload"][0] > 127})
